@@ -196,7 +196,40 @@ func runC08(r *ev.Run) {
 		cw5.L("runtime-new(e1)"),
 		cw5.L("runtime-update(e0,owner->e1)"),
 	}
-	worlds := []*c08world{cw0, cw1, cw2, cw3, cw4, cw5}
+	// seventh / eighth: key manager worlds (before and at feature version 26.1, where a policy update is
+	// scheduled instead of applied at once): node re-registrations with every kind of init response,
+	// master / ephemeral secrets, policy updates, valid and invalid in one respect
+	kmWorld := func(f261 bool) *c08world {
+		cw := newC08World(r, chain.GenesisOptions{KeyManager: true, EpochInterval: 2, NodeExpiration: 30, Escrow: []uint64{3000, 3000, 3000}, Feature261: f261})
+		cw.menu = cw.w.kmMenu()
+		if f261 && !r.Thorough() {
+			// quick tier: at 26.1 only what differs there (policy updates are scheduled, not applied) and the registrations
+			var m []txT
+			for _, t := range cw.menu {
+				if strings.HasPrefix(t.Name, "km-policy") || strings.HasPrefix(t.Name, "km-reg") {
+					m = append(m, t)
+				}
+			}
+			cw.menu = m
+		}
+		cw.byName = map[string]txT{}
+		for _, t := range cw.w.kmMenu() {
+			cw.byName[t.Name] = t
+		}
+		cw.prefixes = [][]letter{
+			cw.L("empty", "empty", "empty"), // committee formed
+			cw.L("empty", "empty", "empty", "km-policy(nodes=[],honest)"),
+		}
+		if !f261 {
+			cw.prefixes = append(cw.prefixes, cw.L("empty", "empty", "empty", "km-master(nodes=[0],honest)"))
+		}
+		if r.Thorough() {
+			cw.prefixes = append(cw.prefixes, nil, cw.L("empty", "empty", "empty", "km-ephemeral(nodes=[1],honest)"), cw.L("empty", "empty", "empty", "km-master(nodes=[0],honest)", "km-reg(nodes=[0],honest)"))
+		}
+		return cw
+	}
+	cw6, cw7 := kmWorld(false), kmWorld(true)
+	worlds := []*c08world{cw0, cw1, cw2, cw3, cw4, cw5, cw6, cw7}
 	L := cw0.L
 	cw0.prefixes = [][]letter{
 		{},
